@@ -30,185 +30,17 @@ import random
 import time
 from unittest import mock
 
-from pyvc.dsl import CONTRACTS, contract, external, spec, implies, iff, ref_class, rec_class
-from pyvc.ty import INT, BOOL, Text, TList, TSet, TDict, TOpaque
+from pyvc.dsl import CONTRACTS
 from pyvc import replay as _replay
+
+# the pyvc contracts (vocabulary, types, proofs) live in the helper module; importing it registers them
+from . import c21_select as _sel
+from .c21_select import (K_EXPAND, K_REFMAP, BASE, fnmatch_filter, rule_reference_map)  # noqa: F401
 
 PROP = "C21"
 LEVEL = "other"
 NATIVE_TRIES = {"quick": 0, "thorough": 0}      # the native searches are run (and counted) by BOUNDED[0]
-
-RefMap = TDict(Text, TSet(Text))
-RuleClass = TOpaque("RuleClass")
-RuleManifest = rec_class("sqlfluff.core.rules.base:RuleManifest", code=Text, name=Text, description=Text,
-                         groups=TList(Text), aliases=TList(Text), rule_class=RuleClass)
-RuleSet = ref_class("sqlfluff.core.rules.base:RuleSet", name=Text, _register=TDict(Text, RuleManifest))
-
-BASE = "sqlfluff.core.rules.base:RuleSet."
-K_EXPAND, K_REFMAP = BASE + "_expand_rule_refs", BASE + "rule_reference_map"
-
-# Engine limits met (pyvc is not edited; reported to the engine owner).  `symbolic_probe` in BOUNDED[0] re-measures
-# the first unsupported construct of each parked function on every run.
-SYMBOLIC_BLOCKED = [
-    "core/rules/base.py:1118 `fnmatch.filter(reference_map.keys(), r)`: method `keys` of a TDict value is not modelled "
-    "(pyvc/stmts.py dict_method supports only get/copy) -> `UNDECIDED dict.keys [line 1118]` for _expand_rule_refs",
-    "contract text: no quantifier over the keys of a TDict (`all(... for k in reference_map)`: pyvc/exec.py quantified() "
-    "raises `quantifier over ...`), so `keys_of(m)` is an uninterpreted list whose completeness (k in m => k in keys_of(m)) "
-    "cannot be axiomatised over the infinite Text domain",
-    "core/rules/base.py:1131-1188 rule_reference_map: `set(self._register.keys())`, dict comprehensions "
-    "`{code: {code} for code in valid_codes}`, dict displays with `**` unpacking, `defaultdict(set)`, `.values()` iteration",
-    "core/rules/base.py:1190-1319 get_rulepack: dict/set comprehensions over `rules_config.items()`, class instantiation "
-    "`rule_class(**kwargs)`, `str.format(**kwargs)`",
-]
-
-
-# ------------------------------------------------------------------ specification vocabulary (from the property text)
-@spec(uninterpreted=True)
-def glob(pat: Text, name: Text) -> BOOL:
-    """`name` is matched by the glob `pat` (what fnmatch.filter applies to one name: normcase on both, then the
-    translated pattern; on posix this is fnmatchcase)"""
-    return fnmatch.fnmatch(name, pat)
-
-
-def _keys_axiom(m, result):
-    return (all(result[i] in m for i in range(len(result)))
-            and all(result[i] != result[j] for i in range(len(result)) for j in range(i + 1, len(result))))
-
-
-@spec(uninterpreted=True, axiom=_keys_axiom)
-def keys_of(m: RefMap) -> TList(Text):
-    """the references defined by a reference map, as a list (see SYMBOLIC_BLOCKED[1] for the missing half of the axiom)"""
-    return sorted(m)
-
-
-@spec(uninterpreted=True)
-def manifests(rs: RuleSet) -> TList(RuleManifest):
-    """the registered rules"""
-    return list(rs._register.values())
-
-
-@spec(recursive=True)
-def kept(names: TList(Text), pat: Text, k: INT) -> TList(Text):
-    """the sublist of names[0:k] matched by pat, order kept"""
-    return [] if k <= 0 else kept(names, pat, k - 1) + ([names[k - 1]] if glob(pat, names[k - 1]) else [])
-
-
-@external("fnmatch:filter")
-class fnmatch_filter:
-    """ASSUMED of the standard library (validated natively on random lists by BOUNDED[0])."""
-    types = {"names": TList(Text), "pat": Text}
-    ret = TList(Text)
-
-    def ensures(names, pat, result):
-        return result == kept(names, pat, len(names))
-
-
-@spec
-def hit(r, m, c):
-    """selector r contributes code c: through the reference r itself when r is one, otherwise through every
-    reference that r matches as a glob"""
-    return (c in m[r]) if r in m else any(glob(r, k) and c in m[k] for k in keys_of(m))
-
-
-@spec
-def contributes(r, m, out):
-    """everything selector r stands for is in `out`"""
-    return (all(c in out for c in m[r]) if r in m
-            else all(implies(glob(r, k), all(c in out for c in m[k])) for k in keys_of(m)))
-
-
-@spec
-def is_code(M, k):
-    return any(M[j].code == k for j in range(len(M)))
-
-
-@spec
-def is_name(M, k):
-    return k != "" and any(M[j].name == k for j in range(len(M)))
-
-
-@spec
-def is_group(M, k):
-    return any(k in M[j].groups for j in range(len(M)))
-
-
-@spec
-def is_alias(M, k):
-    return any(k in M[j].aliases for j in range(len(M)))
-
-
-@spec
-def refers(M, k, m):
-    """rule m is one of the rules the reference k stands for; a string that is a reference of several kinds is read
-    with the precedence codes > names > groups > aliases"""
-    return ((m.code == k) if is_code(M, k) else ((m.name == k) if is_name(M, k)
-            else ((k in m.groups) if is_group(M, k) else (k in m.aliases))))
-
-
-# ------------------------------------------------------------------ 1. _expand_rule_refs   (PARKED: props=())
-@contract(K_EXPAND, ())
-class expand_rule_refs:
-    """result == U_{r in glob_list} (reference_map[r] if r in reference_map else U{reference_map[k] | glob(r, k)}),
-    as two inclusions.  Native reading executed by BOUNDED[0].  SMT reading: the path through the glob branch is blocked at
-    base.py:1118 (dict.keys); the 8 VCs of the remaining paths (loop entry, exact-reference branch, exit) discharge with
-    inv_1 below -- measured on every run by symbolic_probe, reported as information, not counted."""
-    types = {"self": RuleSet, "glob_list": TList(Text), "reference_map": RefMap, "expanded_rule_set": TSet(Text),
-             "matched_refs": TList(Text)}
-    ret = TSet(Text)
-    opts = {"alphabet": "ab*?", "max_len": 2}
-
-    def ensures(glob_list, reference_map, result):
-        return (
-            # nothing but what some selector contributes
-            all(any(hit(glob_list[i], reference_map, c) for i in range(len(glob_list))) for c in result)
-            # everything a selector contributes
-            and all(contributes(glob_list[i], reference_map, result) for i in range(len(glob_list))))
-
-    # invariants for the SMT reading (inv_2 is not exercised: the engine does not get past line 1118)
-    def inv_1(glob_list, reference_map, expanded_rule_set, _i):
-        return (all(any(hit(glob_list[i], reference_map, c) for i in range(0, _i)) for c in expanded_rule_set)
-                and all(contributes(glob_list[i], reference_map, expanded_rule_set) for i in range(0, _i)))
-
-    def inv_2(glob_list, reference_map, expanded_rule_set, matched_refs, r, _i1, _i2):
-        return (0 <= _i1 < len(glob_list) and r == glob_list[_i1] and not (r in reference_map)
-                and matched_refs == kept(keys_of(reference_map), r, len(keys_of(reference_map)))
-                and all(any(hit(glob_list[i], reference_map, c) for i in range(0, _i1 + 1)) for c in expanded_rule_set)
-                and all(contributes(glob_list[i], reference_map, expanded_rule_set) for i in range(0, _i1))
-                and all(c in expanded_rule_set for j in range(0, _i2) for c in reference_map[matched_refs[j]]))
-
-
-# ------------------------------------------------------------------ 2. rule_reference_map   (PARKED: props=())
-@contract(K_REFMAP, ())
-class rule_reference_map:
-    """keys = codes U names U groups U aliases; values by precedence codes > names > groups > aliases;
-    map[code] == {code}; values are sets of codes."""
-    types = {"self": RuleSet}
-    ret = RefMap
-
-    def requires(self):
-        M = manifests(self)
-        # from the code: the register is keyed by code (RuleSet.register refuses a second rule with the same code);
-        # rule names are assumed unique (true of the bundled rules, checked on every run; NOT enforced by register())
-        return (all(M[a].code != M[b].code for a in range(len(M)) for b in range(a + 1, len(M)))
-                and all(M[a].name == "" or M[a].name != M[b].name for a in range(len(M)) for b in range(a + 1, len(M))))
-
-    def ensures(self, result):
-        M = manifests(self)
-        K = keys_of(result)
-        return (
-            # keys: nothing but references ...
-            all(is_code(M, K[i]) or is_name(M, K[i]) or is_group(M, K[i]) or is_alias(M, K[i]) for i in range(len(K)))
-            # ... and every reference
-            and all(M[j].code in result and (M[j].name == "" or M[j].name in result)
-                    and all(g in result for g in M[j].groups) and all(a in result for a in M[j].aliases)
-                    for j in range(len(M)))
-            # values: exactly the rules the reference stands for, under the precedence
-            and all(iff(M[j].code in result[K[i]], refers(M, K[i], M[j])) for i in range(len(K)) for j in range(len(M)))
-            # values contain codes only
-            and all(is_code(M, c) for i in range(len(K)) for c in result[K[i]])
-            # map[code] == {code}
-            and all(M[j].code in result[M[j].code] and all(c == M[j].code for c in result[M[j].code])
-                    for j in range(len(M))))
+SHARDS = {"sqlfluff.core.linter.linter:Linter.lint_fix_parsed#rule-loop": 4}     # ~480 small VCs: 4 workers (6 processes in all)
 
 
 def _build_ruleset(rng, gen):
@@ -322,7 +154,7 @@ def _symbolic_probe():
     out = {}
     try:
         from pyvc import verify
-        for key in (K_EXPAND, K_REFMAP):
+        for key in (K_REFMAP,):
             try:
                 rep = verify.gen_function(CONTRACTS[key], PROP)
                 for ob in rep.obligations:
